@@ -358,6 +358,12 @@ bool c20::run_part3(std::string const& op, Toks& in, Out& impl, Out& ref)
 bool c20::run_part4(std::string const& op, Toks& in, Out& impl, Out& ref)
 {
     auto i = [&] { return static_cast<int>(in.num()); };
+    if (op == "tinit") {
+        auto n = in.num();
+        op_tinit<EtlLib>(n, impl);
+        op_tinit<StdLib>(n, ref);
+        return true;
+    }
     if (op == "prelnan") {
         auto a1 = in.num(), a2 = in.num(), b1 = in.num(), b2 = in.num();
         op_prelnan<EtlLib>(a1, a2, b1, b2, impl);
